@@ -38,6 +38,33 @@ pub fn generate(g: &mut Gen, thorough: bool) {
             case(g, "default", &format!("{def} inv"), "I", "geo", tol, &pts, &format!("{name}-inv-modifier"), true);
         }
     }
+    // every parameter away from its default at once (what random draws of a few rounds may miss)
+    for (name, shape, centre, extent) in [
+        ("tmerc", "lat_0=49 lon_0=-2 k_0=0.9996012717 x_0=400000 y_0=-100000", (-2.0, 52.0), (6.0, 8.0)),
+        ("btmerc", "lat_0=49 lon_0=-2 k_0=0.9996012717 x_0=400000 y_0=-100000", (-2.0, 52.0), (2.5, 8.0)),
+        ("btmerc", "lat_0=-33 lon_0=19 k_0=1.0002 x_0=-1234.5 y_0=777.25", (19.0, -30.0), (2.5, 8.0)),
+        ("tmerc", "lat_0=-33 lon_0=19 k_0=1.0002 x_0=-1234.5 y_0=777.25", (19.0, -30.0), (10.0, 8.0)),
+        ("merc", "lat_0=33 lon_0=-75.5 k_0=0.9999 x_0=500000 y_0=777.25", (-75.5, 20.0), (100.0, 60.0)),
+        ("merc", "lat_ts=-56 lon_0=9 x_0=-1234.5 y_0=10000000", (9.0, -20.0), (100.0, 60.0)),
+        ("lcc", "lat_1=49.5 lat_2=44 lat_0=46.8 lon_0=3 k_0=0.99987742 x_0=700000 y_0=6600000", (3.0, 46.0), (8.0, 6.0)),
+        ("lcc", "lat_1=-33 lat_0=-30 lon_0=25 k_0=1.0002 x_0=-1234.5 y_0=777.25", (25.0, -32.0), (8.0, 6.0)),
+        ("somerc", "lat_0=46.95240555555556 lon_0=7.439583333333333 k_0=0.9999 x_0=2600000 y_0=1200000", (7.44, 46.95), (3.0, 2.0)),
+        ("omerc", "latc=4 lonc=115 alpha=53.31582047 gamma_c=53.13010236 k_0=0.99984 x_0=590476.87 y_0=442857.65", (115.0, 4.0), (4.0, 4.0)),
+        ("omerc", "latc=-36 lonc=-70 alpha=-40 gamma_c=20 k_0=1.0002 x_0=-1234.5 y_0=777.25 variant", (-70.0, -36.0), (4.0, 4.0)),
+        ("laea", "lat_0=-30 lon_0=135 x_0=-1234.5 y_0=777.25", (135.0, -30.0), (40.0, 25.0)),
+    ] {
+        for ellps in ["GRS80", "bessel", "intl"] {
+            let def = format!("{name} {shape} ellps={ellps}");
+            let d = proj::ProjDef { name, shape: String::new(), ellps: ellps.into(), lon_0: centre.0, lat_0: None, k_0: 1.0, x_0: 0.0, y_0: 0.0, has_lon0: true, has_k0: true, has_xy: true, centre, extent };
+            let pts = proj::points(&mut g.rng, &d, 8);
+            let tol = match name {
+                "btmerc" | "omerc" => 2e-3,
+                _ => 5e-6,
+            };
+            case(g, "default", &def, "F", "geo", tol, &pts, &format!("{name}-every-parameter"), true);
+            case(g, "default", &format!("{def} inv"), "I", "geo", tol, &pts, &format!("{name}-every-parameter-inv"), true);
+        }
+    }
     // laea: polar, equatorial and oblique aspects on both hemispheres
     for lat_0 in [90.0, -90.0, 0.0, 52.0, -30.0, 1e-9] {
         for ellps in ["GRS80", "sphere", "intl"] {
@@ -115,7 +142,7 @@ pub fn generate(g: &mut Gen, thorough: bool) {
             case(g, "default", &def, "I", "exact", 0.0, &pts, "adapt-inv-first", true);
         }
     }
-    for def in ["addone", "axisswap order=2,1", "axisswap order=2,-1,3", "axisswap order=4,3,-2,1", "axisswap order=-1,-2,-3,-4", "unitconvert xy_in=us-ft xy_out=km", "unitconvert xy_in=deg xy_out=rad z_in=ft z_out=m", "unitconvert xy_in=m xy_out=ch z_in=yd z_out=in", "noop", "longlat", "latlon", "dm", "dms"] {
+    for def in ["addone", "axisswap order=2,1", "axisswap order=2,-1,3", "axisswap order=4,3,-2,1", "axisswap order=-1,-2,-3,-4", "axisswap order=2,3,1", "axisswap order=3,1,2", "axisswap order=2,3,4,1", "axisswap order=-3,1,-2", "axisswap order=4,-1,2,-3", "unitconvert xy_in=us-ft xy_out=km", "unitconvert xy_in=deg xy_out=rad z_in=ft z_out=m", "unitconvert xy_in=m xy_out=ch z_in=yd z_out=in", "noop", "longlat", "latlon", "dm", "dms"] {
         let pts: Vec<[f64; 4]> = if def == "dm" || def == "dms" {
             // latitude, longitude as (D)DDMM.mmm resp. (D)DDMMSS.sss
             (0..8)
